@@ -17,7 +17,10 @@ S_COMPONENTS = {"real": ["search (instrumented copy)", "index (instrumented copy
 I_COMPONENTS = {"real": ["cmd/zoekt-sourcegraph-indexserver Queue, backoff, indexMutex (instrumented copy)", "container/heap", "time (synctest fake clock)"],
                 "stub": ["goroutine scheduling decisions", "sync primitives (simulated)", "Sourcegraph frontend, Server.Run loop and the indexer child processes are not part of any run"]}
 
-GROUPS = ["search", "ixserver", "grpcsim"]
+B_COMPONENTS = {"real": ["index.Builder (Add/flush/buildShard/writeShard/Finish)", "ShardBuilder.Write", "index.SetTombstone/JsonMarshalRepoMetaTemp", "index.Merge/Explode", "search.NewDirectorySearcher as the observer", "real files in a private tmpfs directory"], "stub": ["os.* of the instrumented packages (simos: counts, fails, or kills the process at every operation)", "Parallelism=1 (no builder goroutines) in the enumerating harnesses"]}
+ENUM_ASSUME = ["kill = kill -9: completed system calls persist, nothing afterwards happens, deferred cleanup has no effect; power loss (lost page cache) is not modelled because zoekt never fsyncs", "crash/failure points are enumerated exhaustively per sampled scenario; scenarios are sampled by seed"]
+
+GROUPS = ["search", "ixserver", "grpcsim", "buildsim"]
 
 PROPS = {
     "C20": dict(
@@ -129,5 +132,15 @@ PROPS = {
         technique="deterministic fault injection: seeded stored-byte corruption (truncation, bit flips, torn pages, garbage, size-field damage) of shard files and sidecars before the real loader, with process-death and hang detection and self-differential answers for the healthy shards",
         level_text="Seeded stored-byte faults on shard files next to healthy shards; the real loader/searcher must survive (a worker that dies from an unrecovered panic, fatal OOM under ulimit or a signal is re-run case by case in fresh processes and a reproducible death is the violation, with the crashing zoekt function as its signature), every call must return within the watchdog, and searches/listings must return exactly the reference results for repositories of the healthy shards.",
         level_note="Samples corruption kinds/positions on 12 small corpora (shards of 1-4 KiB, so a large fraction of positions hits structural bytes).",
+    ),
+    "C12": dict(
+        group="buildsim", level="fault_enumeration",
+        rule="one run = one sampled scenario (old index of 1-5 documents in 1-4 shards or inside a compound shard; new full, delta or shard-merging build with changed/removed/added documents, optionally new repository metadata). evaluations = executions: the recorded fault-free build plus, for EVERY file-system operation k of that build: kill before k (mutating ops), kill in the middle of k (writes), fail k with EIO. distinct_nontrivial = distinct (scenario, fault kind, k, resulting directory class) tuples.",
+        harnesses=[dict(name="C12", quick=48, thorough=6000, quick_deadline_s=170, thorough_deadline_s=1500, ulimit_kb=24000000, env={"VERIF_GCPERCENT": "50", "VERIF_MEMLIMIT_MB": "2048"})],
+        expect_faults=["kill", "kill-in-write", "fail-rename", "fail-createtemp", "fail-write", "fail-remove"],
+        components=B_COMPONENTS, assumptions=ENUM_ASSUME,
+        technique="deterministic fault enumeration: every file-system operation of a recorded index build is replayed as a kill point and as an I/O error point on the simulated disk; the resulting directory is judged old/new/mixed/unloadable by a fresh searcher",
+        level_text="For each sampled scenario the real index.Builder run (replacing an existing index with more, fewer or equally many shards; delta builds that rewrite metadata sidecars; builds that tombstone the repository inside a compound shard) is executed once fault free (and must equal the document model), then once per kill point and per failing operation. After each execution a freshly started directory searcher must see exactly the old or exactly the new index of the repository (documents, contents, versions, branches, metadata), every *.zoekt file must load, other repositories must be untouched, and a run that completed with Finish()==nil must have installed the new index.",
+        level_note="Exhaustive over the operations of each sampled scenario, sampled over scenarios. The inherent non-atomicity of installing several files (kill strictly between the first install rename and the end of the clean-up) is a recorded known finding with its own signature class; every other deviation is reported.",
     ),
 }
